@@ -17,6 +17,11 @@
 (*   <<"state", k>>  query state(G[k]) from inside the body, then yield None*)
 (*   <<"kill!", k>> <<"start!", k>>  the same calls WITHOUT yielding: the   *)
 (*                   body goes on with its next step in the same frame     *)
+(*   <<"raise", 0>>  the body raises an exception (Quit and SwitchWorld are  *)
+(*                   raised from coroutines by design): process() lets it  *)
+(*                   propagate; the coroutine is finished and forgotten,   *)
+(*                   the rest of the frame is abandoned, and the queue is  *)
+(*                   left at a frame boundary so the next frame is normal  *)
 (* (k may be the coroutine itself: kill(self) marks it, start(self) is     *)
 (* refused with ValueError because the generator is executing)             *)
 (* falling off the end returns RetVal(g).  pc[g] is the generator's own    *)
@@ -39,6 +44,7 @@ CONSTANTS G,          \* sequence of coroutine ids (strings), e.g. <<"g1","g2","
           WithKill,   \* BOOLEAN: include the top-level Kill action (C08 instances explore timing only)
           MaxTimer,   \* guard: frames are not generated once the shared timer would pass this
           StartCancelsPendingKill,
+          BodyExceptionCleansUp, \* (D23) an exception escaping a body leaves the queue at a frame boundary
           FinishDropsKillMark   \* (D25) a coroutine that kills itself and returns in the same step leaves no pending mark
 
 VARIABLES aq, wh, gens, kq, timer, prom, pval, pc,
@@ -56,7 +62,7 @@ Init == /\ aq = <<Sent>> /\ wh = {} /\ gens = [g \in Ids |-> "none"] /\ kq = {} 
         /\ log = <<>> /\ ret = "ok" /\ bad = "none" /\ lastDt = 0 /\ touched = {}
 
 Cur == [aq |-> aq, wh |-> wh, gens |-> gens, kq |-> kq, timer |-> timer, prom |-> prom, pval |-> pval, pc |-> pc,
-        st |-> st, elapsed |-> elapsed, need |-> need, log |-> <<>>, bad |-> bad, touched |-> {}]
+        st |-> st, elapsed |-> elapsed, need |-> need, log |-> <<>>, bad |-> bad, touched |-> {}, abort |-> FALSE]
 Commit(s) == /\ aq' = s.aq /\ wh' = s.wh /\ gens' = s.gens /\ kq' = s.kq /\ timer' = s.timer /\ prom' = s.prom
              /\ pval' = s.pval /\ pc' = s.pc /\ st' = s.st /\ elapsed' = s.elapsed /\ need' = s.need
              /\ log' = s.log /\ bad' = s.bad /\ touched' = s.touched
@@ -118,15 +124,24 @@ StepGen(s, g) ==
                   ELSE <<s, "-">>
              s1 == [r[1] EXCEPT !.pc[g] = @ + 1, !.log = Append(@, <<g, s.pc[g], r[2]>>)]
              w == IF op = "y" THEN step[2] ELSE 0 IN
-         IF op \in {"kill!", "start!"} THEN StepGen(s1, g)
+         IF op = "raise"
+         THEN IF BodyExceptionCleansUp
+              THEN [s1 EXCEPT !.aq = Tail(@), !.gens[g] = "none", !.prom[g] = "none", !.st[g] = "TERMINATED",
+                              !.kq = @ \ {g}, !.pc[g] = Len(sc) + 2, !.abort = TRUE]
+              ELSE \* as coded: nothing is cleaned up; the finished generator stays at the head of the deque
+                   [s1 EXCEPT !.pc[g] = Len(sc) + 2, !.st[g] = "TERMINATED", !.abort = TRUE]
+         ELSE IF op \in {"kill!", "start!"} THEN StepGen(s1, g)
          ELSE IF w > 0
          THEN [s1 EXCEPT !.aq = Tail(@), !.wh = @ \cup {<<w + s1.timer, g>>}, !.gens[g] = "waiting",
                          !.st[g] = IF g \in s1.kq THEN "TERMINATED" ELSE "PAUSED", !.elapsed[g] = 0, !.need[g] = w]
          ELSE [s1 EXCEPT !.aq = Append(Tail(@), g)]           \* rotate(-1)
 
+\* rotate the deque so that the frame sentinel is first again (relative order is preserved: the deque is a ring)
+ToBoundary(q) == LET i == CHOOSE j \in 1..Len(q) : q[j] = Sent IN SubSeq(q, i, Len(q)) \o SubSeq(q, 1, i - 1)
 RECURSIVE Run(_, _)
 Run(s, fuel) ==
-    IF fuel = 0 THEN Flag(s, "frame_does_not_end")
+    IF s.abort THEN (IF BodyExceptionCleansUp THEN [s EXCEPT !.aq = ToBoundary(@)] ELSE s)
+    ELSE IF fuel = 0 THEN Flag(s, "frame_does_not_end")
     ELSE LET g == Head(s.aq) IN
          IF g = Sent THEN s
          ELSE IF g \in s.kq THEN Run([DropKilled(s, g) EXCEPT !.aq = Tail(@)], fuel - 1)
@@ -145,15 +160,17 @@ Process(dt) ==
     /\ timer + dt <= MaxTimer
     /\ lastDt' = dt
     /\ LET s0 == [Cur EXCEPT !.elapsed = [g \in Ids |-> IF st[g] = "PAUSED" \/ gens[g] = "waiting" THEN @[g] + dt ELSE @[g]]]
-       IN IF wh = {} THEN /\ Commit(Run([s0 EXCEPT !.aq = Append(Tail(@), Head(@))], 40)) /\ ret' = "ok"
+       IN IF wh = {} THEN LET r == Run([s0 EXCEPT !.aq = Append(Tail(@), Head(@))], 40) IN
+                          /\ Commit(r) /\ ret' = IF r.abort THEN "raised" ELSE "ok"
           ELSE LET t1 == timer + dt
                    dueSet == {p \in wh : t1 >= p[1]} IN
                \E due \in {f \in Perms(dueSet) : Sorted(f)} :
                    LET s1 == Wake([s0 EXCEPT !.timer = t1], due)
                        s2 == IF s1.wh = {} THEN [s1 EXCEPT !.timer = 0] ELSE s1
                        s3 == [s2 EXCEPT !.aq = Append(Tail(@), Head(@))]        \* rotate(-1): the sentinel goes last
-                   IN /\ Commit(Run(s3, 40))
-                      /\ ret' = "ok"
+                       r == Run(s3, 40)
+                   IN /\ Commit(r)
+                      /\ ret' = IF r.abort THEN "raised" ELSE "ok"
 
 Next == \/ (\E g \in Ids : Start(g) \/ Kill(g))
         \/ (\E dt \in Dts : Process(dt))
@@ -192,11 +209,12 @@ WakeExactlyOnTime ==
             ((g \in Ran(log') \/ gens'[g] # "waiting") <=> (elapsed[g] + lastDt' >= need[g]))]_vars
 \* everybody runnable at the start of the frame is advanced exactly once; nobody is advanced twice
 OneStepPerFrame ==
-    [][InFrame => /\ \A g \in Ids : Times(log', g) <= 1
-                  /\ \A g \in Ids : (st[g] = "ACTIVE" /\ g \notin kq /\ g \notin touched') => g \in Ran(log')
-                  \* a waiter woken by this frame runs in this frame
-                  /\ \A g \in Ids : (st[g] = "PAUSED" /\ g \notin kq /\ g \notin touched' /\ elapsed[g] + lastDt' >= need[g])
-                                        => g \in Ran(log')]_vars
+    [][(InFrame /\ ret' = "ok") =>
+          /\ \A g \in Ids : Times(log', g) <= 1
+          /\ \A g \in Ids : (st[g] = "ACTIVE" /\ g \notin kq /\ g \notin touched') => g \in Ran(log')
+          \* a waiter woken by this frame runs in this frame
+          /\ \A g \in Ids : (st[g] = "PAUSED" /\ g \notin kq /\ g \notin touched' /\ elapsed[g] + lastDt' >= need[g])
+                                => g \in Ran(log')]_vars
 RelativeOrderKept ==
     [][InFrame => \A g, h \in Ids : (g # h /\ st[g] = "ACTIVE" /\ st[h] = "ACTIVE" /\ InQ(aq, g) /\ InQ(aq, h)
                                      /\ InQ(aq', g) /\ InQ(aq', h) /\ g \notin kq /\ h \notin kq /\ g \notin touched' /\ h \notin touched') =>
